@@ -191,6 +191,7 @@ func cmdCheck(args []string) {
 
 	// global-write inventory: every (package-level variable, writer) pair must be declared
 	closure = append(closure, P.globalInventory(*prop)...)
+	closure = append(closure, P.callerObligations(*prop)...)
 
 	// bounded stand-ins (labelled, never counted as discharged)
 	bounded := runBounded(*repo, *prop, *tier)
